@@ -72,8 +72,8 @@ func serverClass(name spec.ServerName) string {
 // fixed instants for harness-built events (no dependence on the real clock beyond "the past")
 var t0 = time.Unix(1700000000, 0)
 
-func userOf(cls string) string   { return "@u:" + string(servers[cls].name) }
-func otherOf(cls string) string  { return "@v:" + string(servers[cls].name) }
+func userOf(cls string) string  { return "@u:" + string(servers[cls].name) }
+func otherOf(cls string) string { return "@v:" + string(servers[cls].name) }
 func domainOf(user string) string {
 	if i := strings.IndexByte(user, ':'); i >= 0 {
 		return user[i+1:]
@@ -118,20 +118,22 @@ func restrictedSupported(ver string) bool {
 
 // world is one room as R sees it.
 type world struct {
-	sc      Sc
-	ver     gmsl.RoomVersion
-	impl    gmsl.IRoomVersion
-	user    string // the joining / leaving user the membership fact `mem` is about
-	room    string
-	other   string // another well-formed room ID
-	create  gmsl.PDU
-	pl      gmsl.PDU
-	jr      gmsl.PDU // nil when sc.jr = "none"
-	members map[string]gmsl.PDU
-	listA   gmsl.PDU // join events of A and B as listed by RestrictedRoomJoinInfo
-	listB   gmsl.PDU
-	depth   int64
-	last    string // latest event ID (prev_events of new events)
+	sc          Sc
+	ver         gmsl.RoomVersion
+	impl        gmsl.IRoomVersion
+	user        string // the joining / leaving user the membership fact `mem` is about
+	room        string
+	other       string // another well-formed room ID
+	create      gmsl.PDU
+	pl          gmsl.PDU
+	jr          gmsl.PDU // nil when sc.jr = "none"
+	members     map[string]gmsl.PDU
+	listA       gmsl.PDU // join events of A and B as listed by RestrictedRoomJoinInfo
+	listB       gmsl.PDU
+	creatorJoin gmsl.PDU
+	extraAuth   []gmsl.PDU // events of the auth chain that are no longer current state (superseded invites)
+	depth       int64
+	last        string // latest event ID (prev_events of new events)
 }
 
 func strp(s string) *string { return &s }
@@ -184,24 +186,37 @@ func (w *world) authFor(evs ...gmsl.PDU) []string {
 	return out
 }
 
-var worldCache sync.Map // key -> *world (immutable after construction)
+var (
+	cacheMu    sync.Mutex
+	baseCache  = map[string]*world{} // immutable after construction
+	worldCache = map[string]*world{}
+)
 
-// newWorld builds (or fetches) the room for the facts sc and the user the membership is about.
+// newWorld builds (or fetches) the room for the facts sc and the user the membership fact is about.  All worlds
+// of the same room facts share the same base events (create, power levels, join rules, A, B), so that events
+// built against one of them are recognised by the others.
 func newWorld(sc Sc, user string) *world {
-	key := fmt.Sprintf("%s|%s|%s|%v|%s|%v|%s", sc.Ver, sc.JR, sc.Mem, sc.Allow, sc.APL, sc.AHere, user)
-	if w, ok := worldCache.Load(key); ok {
-		cp := *w.(*world)
-		cp.sc = sc
-		return &cp
+	bkey := fmt.Sprintf("%s|%s|%v|%s|%v", sc.Ver, sc.JR, sc.Allow, sc.APL, sc.AHere)
+	ukey := bkey + "|" + user + "|" + sc.Mem
+	cacheMu.Lock()
+	defer cacheMu.Unlock()
+	w, ok := worldCache[ukey]
+	if !ok {
+		base, ok := baseCache[bkey]
+		if !ok {
+			base = buildBase(sc)
+			baseCache[bkey] = base
+		}
+		w = base.withUser(user, sc.Mem)
+		worldCache[ukey] = w
 	}
-	w := buildWorld(sc, user)
-	worldCache.Store(key, w)
 	cp := *w
+	cp.sc = sc
 	return &cp
 }
 
-func buildWorld(sc Sc, user string) *world {
-	w := &world{sc: sc, ver: gmsl.RoomVersion(sc.Ver), user: user, members: map[string]gmsl.PDU{}}
+func buildBase(sc Sc) *world {
+	w := &world{sc: sc, ver: gmsl.RoomVersion(sc.Ver), members: map[string]gmsl.PDU{}}
 	impl, err := gmsl.GetRoomVersion(w.ver)
 	if err != nil {
 		panic(err)
@@ -261,44 +276,72 @@ func buildWorld(sc Sc, user string) *world {
 		}
 		w.jr = w.mustBuild(w.room, spec.MRoomJoinRules, strp(""), userC, jc, w.authFor(w.create, w.pl, mc), R)
 	}
-	// A and B
-	aMem := "join"
+	// A and B: invited by the creator, then joined (so that every event is allowed by its own auth events)
+	aJoin := w.inviteThenJoin(userA, mc)
+	w.members[userA] = aJoin
 	if !sc.AHere {
-		aMem = "leave"
+		w.extraAuth = append(w.extraAuth, aJoin)
+		w.members[userA] = w.mustBuild(w.room, spec.MRoomMember, strp(userA), userA, map[string]string{"membership": "leave"},
+			w.authFor(w.create, w.pl, aJoin), R)
 	}
-	w.members[userA] = w.mustBuild(w.room, spec.MRoomMember, strp(userA), userA, map[string]string{"membership": aMem},
-		w.authFor(w.create, w.pl, w.jr), R)
-	w.members[userB] = w.mustBuild(w.room, spec.MRoomMember, strp(userB), userB, map[string]string{"membership": "join"},
-		w.authFor(w.create, w.pl, w.jr), R)
+	w.members[userB] = w.inviteThenJoin(userB, mc)
 	// the events RestrictedRoomJoinInfo lists (joined local users of the allowed room)
-	w.listA = w.members[userA]
-	if !sc.AHere {
-		w.listA, _ = w.buildEvent(w.room, spec.MRoomMember, strp(userA), userA, map[string]string{"membership": "join"},
-			w.authFor(w.create, w.pl, w.jr), []string{w.last}, w.depth+1, t0, R, R.priv)
-	}
+	w.listA = aJoin
 	w.listB = w.members[userB]
-	// the user's own membership
+	w.creatorJoin = mc
+	return w
+}
+
+// withUser adds the membership of the user the scenario is about to a copy of the base room.
+func (b *world) withUser(user, mem string) *world {
+	cp := *b
+	w := &cp
+	w.user = user
+	w.members = map[string]gmsl.PDU{}
+	for k, v := range b.members {
+		w.members[k] = v
+	}
+	w.extraAuth = append([]gmsl.PDU(nil), b.extraAuth...)
+	if _, isBase := b.members[user]; isBase {
+		return w // A, B or the creator: their membership is part of the base facts
+	}
+	mc := w.creatorJoin
 	us := serverOfUser(user)
-	switch sc.Mem {
+	switch mem {
 	case "none":
-	case "join", "leave":
-		w.members[user] = w.mustBuild(w.room, spec.MRoomMember, strp(user), user, map[string]string{"membership": sc.Mem},
+	case "join":
+		w.members[user] = w.inviteThenJoin(user, mc)
+	case "leave":
+		w.members[user] = w.mustBuild(w.room, spec.MRoomMember, strp(user), user, map[string]string{"membership": "leave"},
 			w.authFor(w.create, w.pl, w.jr), us)
 	case "invite":
-		// sent by the creator, signed by R and by the invited user's server
-		ev := w.mustBuild(w.room, spec.MRoomMember, strp(user), userC, map[string]string{"membership": "invite"},
-			w.authFor(w.create, w.pl, w.jr, mc), R)
-		if us != R {
-			ev = ev.Sign(string(us.name), us.keyID, us.priv)
-		}
-		w.members[user] = ev
+		w.members[user] = w.invite(user, mc)
 	case "ban":
 		w.members[user] = w.mustBuild(w.room, spec.MRoomMember, strp(user), userC, map[string]string{"membership": "ban"},
-			w.authFor(w.create, w.pl, mc), R)
+			w.authFor(w.create, w.pl, mc), servers["R"])
 	default:
-		panic("c15: unknown membership class " + sc.Mem)
+		panic("c15: unknown membership class " + mem)
 	}
 	return w
+}
+
+// invite builds an invite of user by the creator, signed by R and by the invited user's server.
+func (w *world) invite(user string, creatorJoin gmsl.PDU) gmsl.PDU {
+	R := servers["R"]
+	ev := w.mustBuild(w.room, spec.MRoomMember, strp(user), userC, map[string]string{"membership": "invite"},
+		w.authFor(w.create, w.pl, w.jr, creatorJoin), R)
+	if us := serverOfUser(user); us != R {
+		ev = ev.Sign(string(us.name), us.keyID, us.priv)
+	}
+	return ev
+}
+
+// inviteThenJoin: the invite goes to the auth chain, the join (citing it) is returned.
+func (w *world) inviteThenJoin(user string, creatorJoin gmsl.PDU) gmsl.PDU {
+	inv := w.invite(user, creatorJoin)
+	w.extraAuth = append(w.extraAuth, inv)
+	return w.mustBuild(w.room, spec.MRoomMember, strp(user), user, map[string]string{"membership": "join"},
+		w.authFor(w.create, w.pl, w.jr, inv), serverOfUser(user))
 }
 
 func allowedRoom(i int) string { return fmt.Sprintf("!allowed%d:r.test", i) }
@@ -568,7 +611,9 @@ func (q restrictedQuerier) RestrictedRoomJoinInfo(ctx context.Context, roomID sp
 
 type roomQuerier struct{ known bool }
 
-func (r roomQuerier) IsKnownRoom(ctx context.Context, roomID spec.RoomID) (bool, error) { return r.known, nil }
+func (r roomQuerier) IsKnownRoom(ctx context.Context, roomID spec.RoomID) (bool, error) {
+	return r.known, nil
+}
 
 type stateQuerier struct{ w *world }
 
